@@ -154,11 +154,16 @@ class DefaultHandler(BaseHandler):
                 'type': msg_type
             }
             msg_record.update(msg)
+            # serialize first: a value json cannot encode (the decoder hands
+            # out bytes for families it does not know) must not leave half a
+            # record on the line
             try:
-                json.dump(msg_record, msg_file)
+                line = json.dumps(msg_record, default=repr)
             except Exception as e:
                 LOG.error(e)
                 LOG.info('raw message %s', msg)
+                line = json.dumps({'t': timestamp, 'seq': msg_seq, 'type': msg_type, 'msg': repr(msg.get('msg'))})
+            msg_file.write(line)
             msg_file.write('\n')
             self.msg_sequence[peer.lower()] += 1
             msg_file.flush()
